@@ -45,10 +45,19 @@ var plans = map[string]plan{
 	"C10": {
 		Quick:    []stage{rapidStage(3_000)},
 		Thorough: []stage{rapidStage(150_000), fuzzStage("FuzzC10", 240)},
-		Rule: "cases are (legal-but-unusual document built by docgen that loads and passes Validate; router kind; hostile request; hostile response; option bit set; authentication behaviour; strict flag). Documents that do not validate are discarded (counted). non-trivial = the route was found, so that ValidateRequest, ValidateResponse and ConvertErrors actually ran on the case. distinct = FNV-64a of the canonical case JSON.",
+		Rule:     "cases are (legal-but-unusual document built by docgen that loads and passes Validate; router kind; hostile request; hostile response; option bit set; authentication behaviour; strict flag). Documents that do not validate are discarded (counted). non-trivial = the route was found, so that ValidateRequest, ValidateResponse and ConvertErrors actually ran on the case. distinct = FNV-64a of the canonical case JSON.",
 		Assume: []string{
 			"oracle: every call returns normally; a panic is attributed by its first kin-openapi frame; non-termination is a 20 s watchdog re-run alone with a 60 s limit",
 			"requests are built as *http.Request values the way net/http hands them to a handler (no raw socket)",
+		},
+	},
+	"C20": {
+		Quick:    []stage{rapidStage(1_500)},
+		Thorough: []stage{rapidStage(120_000), fuzzStage("FuzzC20", 240), fuzzStage("FuzzBytes", 300)},
+		Rule:     "cases are (in-memory file tree whose root document is a docgen / repository-testdata / adversarial-reference-graph seed after 0-4 structure-level mutations (retype, delete, replace by $ref to a random / self / ancestor / hostile target, swap, copy, redirect a $ref, deep nesting) and optional token-level damage, as JSON or YAML; entry point; external-reference switch; validation option bits). On success the document is validated, marshalled to JSON and YAML, internalised, marshalled and validated again. non-trivial = the root bytes mention openapi, paths and at least one $ref (the resolver is reached). distinct = FNV-64a of the canonical case JSON.",
+		Assume: []string{
+			"oracle: every call returns normally; non-termination is a 20 s watchdog, re-run alone with a 60 s limit before it is reported",
+			"input size <= 64 KiB; auxiliary files are served from memory through Loader.ReadFromURIFunc",
 		},
 	},
 }
